@@ -8,10 +8,11 @@ import re
 import tokenize
 
 import c08_blocks as blks
+import c08_headers as hdrs
 import c08_literals as lits
 import corpus
 import util
-from framework import pmap
+from framework import pmap, write_if_changed, LEAN
 
 ID = 'C08'
 LEAN_MODULES = ['Pfst.Props.C08']
@@ -23,6 +24,7 @@ THEOREMS = [
     'Pfst.C08.reindent_roundtrip', 'Pfst.C08.indentBlock_fixed', 'Pfst.C08.bytes_never_indentable',
     'Pfst.C08.strict_only_first',
     'Pfst.C08.header_untouched', 'Pfst.C08.toElif_sound', 'Pfst.C08.toElif_complete',
+    'Pfst.C08.twins_same_fixup', 'Pfst.C08.with_family_fixed',
     'Pfst.C08.put_back', 'Pfst.C08.put_copy', 'Pfst.C08.replace_self',
 ]
 RULE = ('(a) repr_str_multiline on ALL strings over the 12-character alphabet {\' " \\ LF TAB CR NUL a SPACE e-acute NBSP '
@@ -43,7 +45,11 @@ RULE = ('(a) repr_str_multiline on ALL strings over the 12-character alphabet {\
         '1-3 statements whose moved statement is an if, elif chains, handlers, finally; top level and inside a def): the '
         'statement put back onto itself as copy / copy().src / own_src() / pure AST via replace / put / put_slice / view '
         'assignment / cut + put, elif_ default / True / False, judged by ast.parse of the new source, ast.dump and the full '
-        'reparse; read accessors (own_src / own_lines with docstr None / True / False / strict, whole=False, get_docstr, '
+        'reparse; 183 statements whose expression slots share delimiters with the statement, sync and async (sole with-item '
+        'tuples, for / async for iterables, return / yield / await, sole call arguments, subscripts, del, assert, decorators, '
+        'class bases, match subjects and patterns, raise / from, if / while tests, assignments): every expression and pattern '
+        'replaced by its own copy / pure AST / own_src / copy().src, twice, judged by ast.parse + dump + full reparse; '
+        'read accessors (own_src / own_lines with docstr None / True / False / strict, whole=False, get_docstr, '
         'get_line_comment, copy().src) called in all 24 orders and rotations on ONE unmodified node under rotating '
         'FST.options(docstr=...) defaults, each answer = the answer of a fresh tree under the same effective options; '
         '_get_indentable_lns / _indent_lns / _dedent_lns vs the Lean predicate on these and on corpus programs. distinct = distinct (operation, input); '
@@ -60,6 +66,9 @@ TRUSTED = [
     'modelled: fst_core._get_indentable_lns (which lines of a node may be re-indented: all but the continuation lines of '
     'multi-line string tokens that are not docstrings; docstr False / True / strict) and the line edits of _indent_lns / '
     '_dedent_lns; the list of multi-line string tokens and their kinds is computed with CPython tokenize + ast',
+    'extracted: membership of every statement kind in ASTS_LEAF_WITH / _FOR / _FUNCDEF / _TRY (Gen/C08Families.lean, each run); '
+    'modelled: the decision that _fix_With_items follows a put into withitem.context_expr (parent in ASTS_LEAF_WITH), observed '
+    'on sync / async twins',
     'not modelled: where pfst finds the end of a statement / block header (the model gets line[end_col:] from pfst), the '
     'put_line_comment path that splits a logical line when another statement follows, _put_slice / code_as / reparse '
     'behind put_docstr and behind the structural round trips (these are exercised by the sweep only, with ast.dump and a '
@@ -1327,6 +1336,120 @@ def _sweep_accessors(ctx, progs):
     ctx.notes['accessor_calls_in_sequences'] = n
 
 
+# ---- statement families (extracted) and the fix-up after a put into a with-item -----------------------------------------
+
+FAMILIES = ['ASTS_LEAF_WITH', 'ASTS_LEAF_FOR', 'ASTS_LEAF_FUNCDEF', 'ASTS_LEAF_TRY']
+
+
+def extract(ctx):
+    """lean/Pfst/Gen/C08Families.lean: membership of every statement kind in the sync/async families pfst decides by"""
+    from fst import asttypes
+    kinds = sorted(c.__name__ for c in asttypes.ASTS_LEAF_STMT)
+    rows = []
+    for k in kinds:
+        cls = getattr(asttypes, k)
+        rows.append('  ("%s", [%s])' % (k, ', '.join('true' if cls in getattr(asttypes, f) else 'false' for f in FAMILIES)))
+    txt = ('-- GENERATED by harness/props/C08.py extract() from /repo/src/fst/asttypes.py; do not edit\n'
+           'namespace Pfst.Gen.C08Families\n\n/-- columns: ' + ', '.join(FAMILIES) + ' -/\n'
+           'def table : List (String × List Bool) := [\n' + ',\n'.join(rows) + ']\n\nend Pfst.Gen.C08Families\n')
+    write_if_changed(LEAN / 'Pfst' / 'Gen' / 'C08Families.lean', txt)
+
+
+def _hdr_one(src, path, form, d0):
+    """replace the expression at `path` by itself, twice; (failure | None, new source)"""
+    root = _mk(src)
+    try:
+        for _ in range(2):
+            f = _de_path(root, path)
+            code = f.copy() if form == 'copy' else f.copy_ast() if form == 'ast' else f.own_src() if form == 'own_src' \
+                else f.copy().src
+            f.replace(code)
+            new = root.src
+            try:
+                d2 = ast.dump(ast.parse(new))
+            except SyntaxError as e:
+                return ('unparsable', f'{e.msg} line {e.lineno}; new source: {new[:200]!r}'), new
+            if d2 != d0:
+                return ('parse-differs', util.first_diff(d2, d0) + f' new source: {new[:200]!r}'), new
+            d1 = ast.dump(root.a)
+            if d1 != d0:
+                return ('dump-differs', util.first_diff(d1, d0)), new
+            d = util.tree_equals_parse(root)
+            if d:
+                return ('tree!=parse', d[:300]), new
+    except Exception as ex:
+        nm = type(ex).__name__
+        return (('refused', str(ex)[:120]) if nm in REFUSALS else ('crash:' + nm, str(ex)[:200])), None
+    return None, root.src
+
+
+def _hdr_case(arg):
+    meta, src = arg
+    out = []
+    d0 = ast.dump(ast.parse(src))
+    root = _mk(src)
+    paths = [(_ser_path(root.child_path(f)), f.a.__class__.__name__, f.parent.a.__class__.__name__ + '.' + f.pfield.name)
+             for f in root.walk(True) if isinstance(f.a, (ast.expr, ast.pattern)) and not _in_fstring(f)]
+    for path, kind, slot in paths:
+        for form in ('copy', 'ast', 'own_src', 'copy_src'):
+            r, new = _hdr_one(src, path, form, d0)
+            w = {'op': 'hdr', 'src': src, 'path': path, 'form': form}
+            out.append((form, kind, slot, r[0] if r else None, r[1] if r else '', w, new))
+    return out
+
+
+def _sweep_headers(ctx):
+    name = 'fix-up after a put into withitem.context_expr vs Pfst.SharedDelims.fixWithItems'
+    n = ref = 0
+    progs = hdrs.programs()
+    for lst in pmap(_hdr_case, progs):
+        for form, kind, slot, r, detail, w, new in lst:
+            n += 1
+            ctx.count('hdr:' + repr(w), True)
+            ctx.tally('header_slot', slot)
+            if r == 'refused':
+                ref += 1
+            elif r:
+                ctx.fail(f'C08|hdr-replace-{form}|{slot}:{kind}|{r}',
+                         f'{kind} in slot {slot} replaced by itself ({form}): {r}: {detail}', w)
+    ctx.notes['header_expr_roundtrips'] = n
+    ctx.notes['header_expr_refused'] = ref
+    # the decision: after the sole parenthesised item of a with statement is replaced by its copy, are the statement's
+    # own parentheses still there (the fix-up ran)?  Same question for the sync and the async twin.
+    cases, obs, wit = [], [], []
+    for pair in hdrs.TWIN_WITH:
+        for s in pair:
+            src = 'async def f():\n    ' + s + '\n'
+            root = _mk(src)
+            w_ = root.body[0].body[0]
+            item = w_.items[0].context_expr
+            try:
+                item.replace(item.copy())
+                new = root.src
+                kept = ast.dump(ast.parse(new)) == ast.dump(ast.parse(src))
+            except Exception as e:
+                kept = f'<{type(e).__name__}>'
+            cases.append({'f': 'C08.fixwith', 'kind': w_.a.__class__.__name__})
+            obs.append(kept)
+            wit.append(src)
+    try:
+        outs = ctx.lean(cases)
+    except Exception as e:
+        ctx.brk('correspondence', name, f'driver error: {e}')
+        return
+    bad = 0
+    for c, o, s, mo in zip(cases, obs, wit, outs):
+        ctx.corr_cases += 1
+        m = mo.get('out', mo)
+        if m is not True or o is not True:       # the model says the fix-up runs for both twins; then the item count is kept
+            bad += 1
+            _disagree(ctx, name, {'src': s, 'parent': c['kind']}, {'items kept after put': o}, {'fix-up runs': m})
+    ctx.tally('correspondence_cases', name)
+    ctx.dist['correspondence_cases'][name] = len(cases)
+    if bad:
+        ctx.brk('correspondence', name, f'{bad}/{len(cases)} differ; first: ' + repr(_FIRST.get(name))[:800])
+
+
 def _programs(ctx, n, stdlib):
     rng = random.Random(ctx.rng.random())
     return corpus.programs(rng, n, stdlib=stdlib)
@@ -1343,6 +1466,7 @@ def sweep(ctx):
     lp = lits.programs()
     _sweep_literals(ctx, rng.sample(lp, 700) if q else lp)
     _sweep_blocks(ctx, blks.programs())
+    _sweep_headers(ctx)
     docp = [(m, s) for m, s in lp if not m['bytes'] and m['form'].startswith('triple')]
     accp = [(s, lits.target_paths(m)) for m, s in docp] + \
         [(s, [p + [[f_, i]] for p, f_, i, _, _, _ in blks.positions(s)][:4]) for _, s in blks.programs()[::7]]
@@ -1365,6 +1489,8 @@ def search(ctx):
             _search_comment_hint(ctx, c)
     strs = hint_strs + _fragment_strings(4) + _all_strings(4) + _random_strings(rng, 6000, lo=1, hi=80)
     _sweep_doc(ctx, [], strs[:16000])
+    if not ctx.failures:
+        _sweep_headers(ctx)
     if not ctx.failures:
         _sweep_blocks(ctx, blks.programs())
         _sweep_literals(ctx, lits.programs())
@@ -1402,6 +1528,11 @@ def replay(ctx, data):
     if op == 'docstr':
         r = _doc_one(w['host'], w['s'])
         if r:
+            ctx.fail('replay', f'{r[0]}: {r[1]}', w)
+        return
+    if op == 'hdr':
+        r, _ = _hdr_one(w['src'], w['path'], w['form'], ast.dump(ast.parse(w['src'])))
+        if r and r[0] != 'refused':
             ctx.fail('replay', f'{r[0]}: {r[1]}', w)
         return
     if op == 'blk':
